@@ -44,7 +44,9 @@ TEndBridge == /\ Is("EndBridge") /\ l' = l + 1
 \* the filter must remember a handshake for as long as its stamped hour stays acceptable: an entry made at the very
 \* start of hour s-1 has to survive until the end of hour s+1 (TTLCoversWindow in Obfs4Replay.tla)
 TConfig == Is("Config") /\ l' = l + 1 /\ Trace[l].ttl_s >= 3 * 3600 /\ UNCHANGED <<acc, pend, offs>>
-TNext == TConfig \/ TReset \/ TSubmit \/ TResult \/ TEndBridge
+\* an unrelated entry was planted in the bridge's filter, N seconds short of its TTL (its expiry must not disturb the rest)
+TPlant == Is("Plant") /\ l' = l + 1 /\ Trace[l].ok /\ UNCHANGED <<acc, pend, offs>>
+TNext == TPlant \/ TConfig \/ TReset \/ TSubmit \/ TResult \/ TEndBridge
 TraceSpec == TInit /\ [][TNext]_tvars
 HW == TLCSet(1, IF l - 1 > TLCGet(1) THEN l - 1 ELSE TLCGet(1))
 TraceAccepted == IF TLCGet(1) = Len(Trace) THEN TRUE ELSE PrintT(<<"REJECTED_AFTER", TLCGet(1)>>) /\ FALSE
